@@ -8,6 +8,10 @@ ROOT = os.path.dirname(os.path.dirname(os.path.abspath(__file__)))
 
 # id -> (engine, category, technique, text, note, design_ref)
 CHECKS = {
+    "C13": dict(engine="enum", category="exploration", design_ref="DESIGN.md section 7 C13",
+        technique="exhaustive enumeration of fragment arrival sequences (all partitions x all permutations x duplicates x interleavings; all hostile sequences up to a depth) on the real defragmenters with provenance-encoding payloads",
+        text="IPv4: every composition of a datagram of 1..7 [thorough 8] 8-byte units into fragments x every arrival order x header lengths {20,24,40,60} x one duplicated fragment at every position, and every merge with a second datagram's fragments for small N: nothing returned before the last missing fragment, then exactly one datagram with the original payload (bytes encode datagram id and offset), MF/offset cleared, Length = IHL*4 + payload. Every sequence of <=4 [5] fragments over all ranges x MF of a 6-unit datagram (hostile: holes, overlaps, conflicting finals): any datagram returned consists only of received bytes at their own offsets. Limits (undersized, offset > 8183, overrun, long lists), pass-through of unfragmented/DF packets as the same pointer, DiscardOlderThan before/at the cut-off. IPv6: all compositions x orders x duplicates for N<=6 [7].",
+        note="Trusted: provenance encoding (payload byte = id<<6|offset). Datagrams are at most 64 bytes; payloads up to 65515 bytes are not enumerated."),
     "C17": dict(engine="enum", category="exploration", design_ref="DESIGN.md section 7 C17",
         technique="exhaustive pair/triple enumeration over a small closed set of endpoints for the value algebra; bounded-exhaustive input enumeration for the layer-to-flow clause with the header layout as reference",
         text="All ordered pairs and all triples of 630 endpoints (5 types x 126 address strings incl. lengths 0..3 exhaustively over {0,1,0xff} and lengths 4/6/15/16 with every single-position variation): equality <=> type+bytes, map-key interchangeability, strict total order (irreflexive, asymmetric, total, transitive), FlowFromEndpoints/Endpoints/NewFlow/Reverse identities, FastHash(f)=FastHash(reverse f), type mismatch refused, 17-byte addresses refused. For every decoded Ethernet/IPv4/IPv6/TCP/UDP/UDPLite/SCTP layer in the deviation<=1 input neighbourhoods: the reported flow equals the address bytes of the layer's own header, and the input with those bytes swapped yields the reversed flow with an equal hash.",
